@@ -45,7 +45,25 @@ def b(x) -> str:
     return "true" if x else "false"
 
 
+def expand_wp(arity_of, ops, param, at):
+    """The alternatives with_parameters(*ops, param=param, at=at) produces
+    (transforge/type.py with_parameters), as schematic types."""
+    out = []
+    for o in ops:
+        ar = arity_of(o)
+        idxs = ([at - 1] if at else list(range(ar))) if param is not None else [-1]
+        for i in idxs:
+            if i < ar:
+                out.append(("o", o, [param if (param is not None and i == j) else ("w",) for j in range(ar)]))
+    return out
+
+
+_ARITY = {"f": None}
+
+
 def constr_coq(c) -> str:
+    if c[0] == "elimwp":
+        return constr_coq(("elim", c[1], expand_wp(_ARITY["f"], c[2], c[3], c[4])))
     if c[0] == "sub":
         return f"(SCSub {sty_coq(c[1])} {sty_coq(c[2])} {b(c[3])})"
     return f"(SCElim {sty_coq(c[1])} {C.coq_list(c[2], sty_coq)})"
@@ -89,6 +107,7 @@ def pool_of(h: C.Hierarchy) -> list:
 
 def case_block_check(name: str, h: C.Hierarchy, progs, cap: int = 60) -> tuple[str, int]:
     """Like case_block, with the verified witness checker's row appended."""
+    _ARITY["f"] = h.arity
     txt = f"Definition {name} := {h.coq()}.\n"
     pool = C.coq_list(pool_of(h), C.ty_coq)
     items = C.coq_list(progs, lambda ps: f"({C.coq_list(ps[1])}, {C.coq_list(ps[0], cmd_coq)})")
@@ -99,6 +118,7 @@ def case_block_check(name: str, h: C.Hierarchy, progs, cap: int = 60) -> tuple[s
 
 def case_block(name: str, h: C.Hierarchy, progs: list[tuple[list, list[int]]]) -> tuple[str, int]:
     """One Coq block evaluating several (program, schedule) pairs over one hierarchy."""
+    _ARITY["f"] = h.arity
     txt = f"Definition {name} := {h.coq()}.\n"
     items = C.coq_list(progs, lambda ps: f"({C.coq_list(ps[1])}, {C.coq_list(ps[0], cmd_coq)})")
     txt += (f"Eval vm_compute in map (fun p : list nat * list cmd => run_dump {name} {FUEL} (fst p) (snd p)) "
@@ -122,6 +142,13 @@ def sty_py(t, names) -> str:
 
 
 def constr_py(c, names) -> str:
+    if c[0] == "elimwp":
+        args = [names[o] for o in c[2]]
+        if c[3] is not None:
+            args.append(f"param={sty_py(c[3], names)}")
+        if c[4]:
+            args.append(f"at={c[4]}")
+        return f"({sty_py(c[1], names)} << with_parameters({', '.join(args)}))"
     if c[0] == "sub":
         return f"({sty_py(c[1], names)} {'<' if c[3] else '<='} {sty_py(c[2], names)})"
     return f"({sty_py(c[1], names)} << [{', '.join(sty_py(a, names) for a in c[2])}])"
@@ -144,6 +171,7 @@ def build_schema(h: C.Hierarchy, sc):
     names = {i: f"op{i}" for i in h.ops}
     env = {f"op{i}": op for i, op in h.ops.items()}
     env["_"] = T._
+    env["with_parameters"] = T.with_parameters
     return T.TypeSchema(eval(schema_py(sc, names), env))
 
 
@@ -666,6 +694,82 @@ def gen_nested_elim(rng, h):
     arg = inst(a0)
     if arg[0] != "o":
         arg = rng.choice(base)
+    return [("inst", sig), ("inst", (0, arg, [])), ("apply", 0, 1, True)]
+
+
+def gen_elim_two_step(rng, h):
+    """Targeted family: x ** x ** r [x << nested alternatives (some via
+    with_parameters)], first applied to an argument with a fresh variable deep
+    inside, then to a concrete refinement of it - the second argument decides
+    the inner variable, which must re-examine the constraint."""
+    base = [("o", o, []) for o in range(5, 5 + h.nbase)]
+    un = [q for q in h.ids if h.arity(q) == 1]
+    bi = [q for q in h.ids if h.arity(q) == 2] or [4]
+    x, w = ("v", 0), ("w",)
+
+    def conc(d):
+        if d == 0 or rng.random() < 0.2:
+            return rng.choice(base)
+        if rng.random() < 0.6:
+            return ("o", rng.choice(un), [conc(d - 1)])
+        return ("o", rng.choice(bi), [conc(d - 1), conc(d - 1)])
+
+    def hole(t):
+        """replace one leaf (as deep as possible) by a wildcard"""
+        if not t[2]:
+            return w
+        i = rng.randrange(len(t[2]))
+        return ("o", t[1], t[2][:i] + [hole(t[2][i])] + t[2][i + 1:])
+
+    def vary(t):
+        """same shape, leaves re-drawn"""
+        if t[0] == "w":
+            return t
+        if not t[2]:
+            return rng.choice(base)
+        return ("o", t[1], [vary(a) for a in t[2]])
+    a0 = conc(2)
+    if not a0[2]:
+        a0 = ("o", rng.choice(un), [("o", rng.choice(un), [a0])])
+    alts = [a0] + [vary(a0) for _ in range(rng.randint(1, 2))]
+    cs = [("elim", x, alts)]
+    if rng.random() < 0.4:
+        ops = rng.sample(un + [q for q in h.ids if h.arity(q) == 2], k=min(2, len(un)))
+        cs.append(("elimwp", x, ops, None, None))
+    sig = (1, ("o", 3, [x, ("o", 3, [x, x])]), cs)
+    first = hole(rng.choice(alts))
+    second = vary(first) if rng.random() < 0.5 else rng.choice(alts)
+    second = fill(rng, second, base)
+    return [("inst", sig), ("inst", (0, first, [])), ("apply", 0, 1, True),
+            ("inst", (0, second, [])), ("apply", 2, 3, True)]
+
+
+def fill(rng, t, base):
+    if t[0] == "w":
+        return rng.choice(base)
+    if t[0] == "v":
+        return t
+    return ("o", t[1], [fill(rng, a, base) for a in t[2]])
+
+
+def gen_wp_program(rng, h):
+    """a ** r(b) [a << with_parameters(...)] applied to a concrete argument."""
+    base = [("o", o, []) for o in range(5, 5 + h.nbase)]
+    comp = [q for q in h.ids if h.arity(q) >= 1]
+    ops = rng.sample(comp, k=rng.randint(1, min(3, len(comp))))
+    b_ = ("v", 1)
+    mode = rng.random()
+    if mode < 0.4:
+        c = ("elimwp", ("v", 0), ops, b_, None)
+    elif mode < 0.75:
+        c = ("elimwp", ("v", 0), ops, b_, rng.randint(1, 2))
+    else:
+        c = ("elimwp", ("v", 0), ops, None, None)
+    un = [q for q in h.ids if h.arity(q) == 1]
+    r = rng.choice([b_, ("o", rng.choice(un), [b_])]) if un else b_
+    sig = (2, ("o", 3, [("v", 0), r]), [c])
+    o = rng.choice(ops) if rng.random() < 0.85 else rng.choice(comp)
+    arg = ("o", o, [rng.choice(base) for _ in range(h.arity(o))])
     return [("inst", sig), ("inst", (0, arg, [])), ("apply", 0, 1, True)]
 
 
